@@ -81,3 +81,52 @@ package polynomials
 //@   property C20
 //@   purefn
 //@   ensures result == p.coeffs
+
+// ---------------------------------------------------------------- coefficient-wise operations (C20)
+// Add: the sum has max(len p, len e) coefficients; below the shorter length they are the coefficient-wise sums, above
+// it the coefficients of the longer operand, for EVERY index. ScalarMul multiplies EVERY coefficient. Degree is the
+// index of the HIGHEST non-zero coefficient (all higher ones are zero), -1 exactly for the zero polynomial.
+//@ func (*Polynomial).Add
+//@   property C20
+//@   bind RE ring
+//@   nopanic
+//@   requires p != nil && e != nil
+//@   ensures result != nil && len(result.coeffs) == max(len(p.coeffs), len(e.coeffs))
+//@   ensures forall t int :: 0 <= t && t < min(len(p.coeffs), len(e.coeffs)) ==> result.coeffs[t] == radd(p.coeffs[t], e.coeffs[t])
+//@   ensures forall t int :: len(p.coeffs) <= t && t < len(e.coeffs) ==> result.coeffs[t] == e.coeffs[t]
+//@   ensures forall t int :: len(e.coeffs) <= t && t < len(p.coeffs) ==> result.coeffs[t] == p.coeffs[t]
+//@   loop range(min(len(p.coeffs), len(e.coeffs)))
+//@     invariant len(coeffs) == max(len(p.coeffs), len(e.coeffs))
+//@     invariant forall t int :: 0 <= t && t < i ==> coeffs[t] == radd(p.coeffs[t], e.coeffs[t])
+//@   loop for(i < max(len(p.coeffs), len(e.coeffs)))
+//@     invariant len(p.coeffs) <= i && len(coeffs) == max(len(p.coeffs), len(e.coeffs))
+//@     invariant forall t int :: 0 <= t && t < min(len(p.coeffs), len(e.coeffs)) ==> coeffs[t] == radd(p.coeffs[t], e.coeffs[t])
+//@     invariant forall t int :: len(p.coeffs) <= t && t < i && t < len(e.coeffs) ==> coeffs[t] == e.coeffs[t]
+//@   loop for(i < max(len(p.coeffs), len(e.coeffs)))#2
+//@     invariant len(e.coeffs) <= i && len(coeffs) == max(len(p.coeffs), len(e.coeffs))
+//@     invariant forall t int :: 0 <= t && t < min(len(p.coeffs), len(e.coeffs)) ==> coeffs[t] == radd(p.coeffs[t], e.coeffs[t])
+//@     invariant forall t int :: len(p.coeffs) <= t && t < len(e.coeffs) ==> coeffs[t] == e.coeffs[t]
+//@     invariant forall t int :: len(e.coeffs) <= t && t < i && t < len(p.coeffs) ==> coeffs[t] == p.coeffs[t]
+
+//@ func (*Polynomial).ScalarMul
+//@   property C20
+//@   bind RE ring
+//@   nopanic
+//@   requires p != nil
+//@   ensures result != nil && len(result.coeffs) == len(p.coeffs)
+//@   ensures forall t int :: 0 <= t && t < len(p.coeffs) ==> result.coeffs[t] == rmul(p.coeffs[t], s)
+//@   loop range(p.coeffs)
+//@     invariant len(coeffs) == len(p.coeffs)
+//@     invariant forall t int :: 0 <= t && t < i ==> coeffs[t] == rmul(p.coeffs[t], s)
+
+//@ func (*Polynomial).Degree
+//@   property C20
+//@   purefn
+//@   bind RE ring
+//@   nopanic
+//@   requires p != nil
+//@   ensures result == -1 || (0 <= result && result < len(p.coeffs) && p.coeffs[result] != rzero())
+//@   ensures forall t int :: result < t && t < len(p.coeffs) ==> p.coeffs[t] == rzero()
+//@   loop for(i >= 0)
+//@     invariant -1 <= i && i < len(p.coeffs)
+//@     invariant forall t int :: i < t && t < len(p.coeffs) ==> p.coeffs[t] == rzero()
